@@ -340,6 +340,12 @@ class IncomingMessageHandler(IncomingMessageHandlerBase):
         except (ValueError, OverflowError) as err:
             raise InvalidMessageError(err, message) from err
 
+        if not 0 <= battery_level <= 100:  # noqa: PLR2004
+            raise InvalidMessageError(
+                ValueError("The battery level must be a percentage, 0-100."),
+                message,
+            )
+
         gateway.nodes[message.node_id].battery_level = battery_level
         return message
 
